@@ -14,7 +14,8 @@
 (***************************************************************************)
 EXTENDS Integers, Sequences, FiniteSets, TLC
 CR == "CR"  LF == "LF"  LS == "LS"  SP == " "
-IsBlank(l) == \A i \in 1..Len(l) : l[i] = SP
+\* (a line that holds nothing but white space - the Unicode separators count as such - holds no statement)
+IsBlank(l) == \A i \in 1..Len(l) : l[i] \in {SP, LS}
 \* length of the line end that starts at position i under a given notion of line end (0: none)
 EolLen(mode, t, i) ==
   CASE mode = "spec" -> IF t[i] = CR /\ i < Len(t) /\ t[i + 1] = LF THEN 2 ELSE IF t[i] \in {CR, LF} THEN 1 ELSE 0
